@@ -190,10 +190,11 @@ class Eval:
         m = self.shared["mem"]
         if key in m:
             return m[key]
-        # a more general havoc / write on a prefix?
-        for k in self._prefixes(key):
-            if k in m and not isinstance(m[k], Agg):
-                return ("sub", m[k], key[len(k):])
+        # a value written on a prefix of this path?
+        for i in range(len(path) - 1, -1, -1):
+            k = self.ext_key(root, path[:i])
+            if k in m:
+                return self.read_path(m[k], path[i:])
         return ("load", key, self.epoch_of(key))
 
     def epoch_of(self, key):
@@ -265,7 +266,14 @@ class Eval:
             # write at a symbolic index: havoc the array
             base = self.ext_key(root, [p for p in path if not (p[0] == "i" and isinstance(p[1], tuple))])
             self.havoc_key(base)
+            self.res.stores.append((bb, key, val))
             return
+        for i in range(len(path) - 1, -1, -1):
+            k = self.ext_key(root, path[:i])
+            if k in m:
+                m[k] = self.write_path(m[k], path[i:], val)
+                self.res.stores.append((bb, key, val))
+                return
         m[key] = val
         self.res.stores.append((bb, key, val))
 
@@ -318,7 +326,7 @@ class Eval:
             elif p[0] == "c":
                 path.append(("i", p[1]))
             elif p[0] == "d":
-                path.append(("f", "as:%s" % p[2]))
+                pass
             else:
                 path.append(("x", str(p)))
         return ref, path
@@ -601,6 +609,26 @@ class Eval:
             if f in ("checked_add", "checked_sub", "checked_mul"):
                 return ("checked", f[8:], args[0], args[1], ty)
             return None
+        if name.endswith("IntoIterator>::into_iter") and len(args) == 1 and isinstance(args[0], Agg) and args[0].get("_adt", "").endswith("ops::Range"):
+            return args[0].copy()
+        if name.endswith("Iterator for core::ops::Range<A>>::next") and len(args) == 1 and isinstance(args[0], tuple) and args[0][:1] == ("ref",):
+            it = self.read_ref(env, args[0])
+            if isinstance(it, Agg) and is_c(it.get("start")) and is_c(it.get("end")):
+                o = Agg()
+                o["_k"] = "adt"
+                o["_adt"] = "core::option::Option"
+                if it["start"][1] < it["end"][1]:
+                    o["_variant"] = "Some"
+                    o["_variant_idx"] = 1
+                    o["0"] = it["start"]
+                    it2 = it.copy()
+                    it2["start"] = C(it["start"][1] + 1, it["start"][2])
+                    self.write_ref(env, args[0], (), it2, bb)
+                else:
+                    o["_variant"] = "None"
+                    o["_variant_idx"] = 0
+                return o
+            return None
         if name in ("core::cmp::min", "core::cmp::max"):
             return ("minmax", name[-3:], args[0], args[1])
         # ---- slices
@@ -647,19 +675,23 @@ class Eval:
         return None
 
     # ------------------------------------------------------------ main loop
+    MAXIT = 72
+    MAXWORK = 6000
+
     def run(self):
         fn = self.fn
         succ, pred_, reach = fn.cfg()
         order = fn.rpo()
-        idx = {b: i for i, b in enumerate(order)}
+        self.idx = {b: i for i, b in enumerate(order)}
+        idx = self.idx
         self.shared.setdefault("frame_fns", {})[self.fid] = fn
-        # loops: back edges and bodies
+        # natural loops: head -> body
         heads = {}
         for b in order:
-            for s in succ[b]:
-                if s in idx and idx[s] <= idx[b] and fn.dominates(s, b):
-                    body = heads.setdefault(s, set())
-                    body.add(s)
+            for s2 in succ[b]:
+                if s2 in idx and idx[s2] <= idx[b] and fn.dominates(s2, b):
+                    body = heads.setdefault(s2, set())
+                    body.add(s2)
                     st = [b]
                     while st:
                         x = st.pop()
@@ -667,75 +699,157 @@ class Eval:
                             continue
                         body.add(x)
                         st.extend(p for p in pred_[x] if p in reach)
+        self.heads = heads
+        self.EDGE = {}
+        self.work = 0
         env0 = {}
         for i in range(1, fn.argc + 1):
             env0[i] = self.arg_value(i)
-        OUT = {}
-        EDGE = {}
-        for b in order:
-            # join predecessors (forward edges only)
-            ins = []
-            for p in pred_[b]:
-                if p in OUT and (p, b) in EDGE and not (b in heads and p in heads[b] and idx[p] >= idx[b]):
-                    ins.append((p, EDGE[(p, b)]))
-            if b == 0:
-                env = env0
-                mem = dict(self.shared["mem"])
-            elif not ins:
-                self.res.pruned.add(b)
-                continue
-            else:
-                env, mem = self.join(b, ins)
-            self.shared["mem"] = mem
-            self.shared["frames"][self.fid] = env
-            if b in heads:
-                self.havoc_loop(env, b, heads[b])
-            self.res.block_in[b] = (dict(env), dict(self.shared["mem"]))
-            # statements
-            for s in fn.stmts(b):
-                if s[0] == "=":
-                    dty = fn.locals[s[1][0]] if not s[1][1] else None
-                    v = self.rvalue(env, s[2], dty, b)
-                    self.write_place(env, s[1], v, b)
-            t = fn.term(b)
-            outs = {}
-            if t[0] == "call":
-                self.do_call(env, b, t)
-                if t[4] is not None:
-                    outs[t[4]] = None
-            elif t[0] == "sw":
-                d = self.operand(env, t[1])
-                if is_c(d):
-                    tgt = t[3]
-                    for v, bb2 in t[2]:
-                        if v == d[1]:
-                            tgt = bb2
-                    outs[tgt] = None
-                else:
-                    self.cond_at[b] = d
-                    for s2 in fn.succs(b):
-                        outs[s2] = ("sw", d, t)
-            elif t[0] == "assert":
-                cnd = self.operand(env, t[1])
-                self.res.asserts.append((b, t[3], cnd, bool(t[2]), [self.operand(env, o) for o in t[5]]))
-                if not (is_c(cnd) and bool(cnd[1]) != bool(t[2])):
-                    outs[t[4]] = None
-            elif t[0] in ("goto",):
-                outs[t[1]] = None
-            elif t[0] == "drop":
-                outs[t[2]] = None
-            elif t[0] == "ret":
-                r = env.get(0, ("unit",))
-                self.res.ret = r if self.res.ret is None else self.join_val(self.res.ret, r, ("ret", b))
-                self.res.mem_at_ret = dict(self.shared["mem"])
-            OUT[b] = True
-            snap_env = env
-            snap_mem = self.shared["mem"]
-            for s2, cond in outs.items():
-                EDGE[(b, s2)] = ({k: (v.copy() if isinstance(v, Agg) else v) for k, v in snap_env.items()}, dict(snap_mem), cond, b)
-            self.res.block_out[b] = True
+        self.entry_state = (env0, dict(self.shared["mem"]))
+        self.eval_seq(order, None)
         self.shared["frames"][self.fid] = None if self.depth else self.shared["frames"].get(self.fid)
         return self.res
+
+    def eval_seq(self, blocks, region_head, head_state=None):
+        """Evaluate `blocks` (RPO order).  Blocks that belong to a loop nested inside this region are
+        handled by eval_loop when its head is reached."""
+        done = set()
+        for b in blocks:
+            if b in done:
+                continue
+            if b in self.heads and b != region_head:
+                body = self.heads[b]
+                self.eval_loop(b, body)
+                done |= body
+                continue
+            if b == region_head and head_state is not None:
+                self.eval_block(b, head_state)
+            else:
+                self.eval_block(b, None)
+
+    def incoming(self, b, only_from=None, exclude=None):
+        ins = []
+        for p in self.fn.cfg()[1][b]:
+            if (p, b) in self.EDGE:
+                if only_from is not None and p not in only_from:
+                    continue
+                if exclude is not None and p in exclude:
+                    continue
+                ins.append((p, self.EDGE[(p, b)]))
+        return ins
+
+    def eval_loop(self, head, body):
+        fn = self.fn
+        body_order = [b for b in fn.rpo() if b in body]
+        entry = self.incoming(head, exclude=body)
+        if head == 0:
+            st0 = self.entry_state
+        elif not entry:
+            for b in body:
+                self.res.pruned.add(b)
+            return
+        else:
+            st0 = self.join(head, entry)
+        # ---- try unrolling
+        snap = (dict(self.EDGE), len(self.res.calls), len(self.res.asserts), len(self.res.stores), dict(self.shared["mem"]), dict(self.shared.get("epochs", {})), self.res.ret, dict(self.res.mem_at_ret), set(self.res.pruned), dict(self.cond_at))
+        state = st0
+        ok = False
+        exits_seen = {}
+        for it in range(self.MAXIT + 1):
+            for k in [k for k in self.EDGE if k[0] in body]:
+                del self.EDGE[k]
+            self.eval_seq(body_order, head, head_state=(dict(state[0]), dict(state[1])))
+            self.work += len(body_order)
+            back = self.incoming(head, only_from=body)
+            exits = [k for k in self.EDGE if k[0] in body and k[1] not in body]
+            if back and exits:
+                break            # both continuing and leaving are feasible: not a constant-trip loop
+            if not back:
+                ok = True
+                break
+            if self.work > self.MAXWORK:
+                break
+            state = self.join(head, back)
+        if ok:
+            return
+        # ---- fallback: havoc everything the loop assigns, evaluate the body once
+        self.EDGE = snap[0]
+        del self.res.calls[snap[1]:]
+        del self.res.asserts[snap[2]:]
+        del self.res.stores[snap[3]:]
+        self.shared["mem"] = snap[4]
+        self.shared["epochs"] = snap[5]
+        self.res.ret = snap[6]
+        self.res.mem_at_ret = snap[7]
+        self.res.pruned = snap[8]
+        self.cond_at = snap[9]
+        env, mem = dict(st0[0]), dict(st0[1])
+        self.shared["mem"] = mem
+        self.shared["frames"][self.fid] = env
+        self.havoc_loop(env, head, body)
+        for k in [k for k in self.EDGE if k[0] in body]:
+            del self.EDGE[k]
+        self.eval_seq(body_order, head, head_state=(env, self.shared["mem"]))
+        # back edges are dropped (the head state already covers every iteration)
+        for k in [k for k in self.EDGE if k[0] in body and k[1] == head]:
+            del self.EDGE[k]
+
+    def eval_block(self, b, given):
+        fn = self.fn
+        if given is not None:
+            env, mem = given
+        elif b == 0:
+            env, mem = self.entry_state
+        else:
+            ins = self.incoming(b)
+            if not ins:
+                self.res.pruned.add(b)
+                return
+            env, mem = self.join(b, ins)
+        self.res.pruned.discard(b)
+        self.shared["mem"] = mem
+        self.shared["frames"][self.fid] = env
+        self.res.block_in[b] = (dict(env), dict(mem))
+        for s in fn.stmts(b):
+            if s[0] == "=":
+                dty = fn.locals[s[1][0]] if not s[1][1] else None
+                v = self.rvalue(env, s[2], dty, b)
+                self.write_place(env, s[1], v, b)
+        t = fn.term(b)
+        outs = {}
+        if t[0] == "call":
+            self.do_call(env, b, t)
+            if t[4] is not None:
+                outs[t[4]] = None
+        elif t[0] == "sw":
+            d = self.operand(env, t[1])
+            if is_c(d):
+                tgt = t[3]
+                for v, bb2 in t[2]:
+                    if v == d[1]:
+                        tgt = bb2
+                outs[tgt] = None
+            else:
+                self.cond_at[b] = d
+                for s2 in fn.succs(b):
+                    outs[s2] = ("sw", d, t)
+        elif t[0] == "assert":
+            cnd = self.operand(env, t[1])
+            self.res.asserts.append((b, t[3], cnd, bool(t[2]), [self.operand(env, o) for o in t[5]]))
+            if not (is_c(cnd) and bool(cnd[1]) != bool(t[2])):
+                outs[t[4]] = None
+        elif t[0] == "goto":
+            outs[t[1]] = None
+        elif t[0] == "drop":
+            outs[t[2]] = None
+        elif t[0] == "ret":
+            r = env.get(0, ("unit",))
+            self.res.ret = r if self.res.ret is None else self.join_val(self.res.ret, r, ("ret", b))
+            self.res.mem_at_ret = dict(self.shared["mem"])
+        snap_mem = self.shared["mem"]
+        for s2, cond in outs.items():
+            self.EDGE[(b, s2)] = ({k: (v.copy() if isinstance(v, Agg) else v) for k, v in env.items()}, dict(snap_mem), cond, b)
+        self.res.block_out[b] = True
 
     def havoc_loop(self, env, head, body):
         fn = self.fn
